@@ -7,6 +7,7 @@ import (
 	"path/filepath"
 	"sort"
 	"strings"
+	"time"
 
 	"github.com/biogo/store/llrb"
 	"github.com/openziti/foundation/v2/errorz"
@@ -21,6 +22,7 @@ import (
 //   C <kind> <fw> <present> <nA> A.. <nB> B.. <nops> ops..     one cursor, ops = N | S<hex>
 //   Q <allof|anyof> <fw> <nent> (id nroles roles..).. <nvals> vals.. <nops> ops..
 //   B <ro|rw> <nkeys> keys.. <nops> bops..                       raw bbolt cursor, bops = F L N P S<hex>
+//   R .. / S ..                                                  re-opened cursors and scans: c14_reuse.go
 // Observation line: one token per observation point (after the constructor and after every op):
 //   I (invalid) | V<hex> (valid, Current) | P (panic; everything after is P too)
 // for B lines: the key returned by each op, I for nil.
@@ -293,6 +295,9 @@ type c14Out struct {
 }
 
 func (o *c14Out) emit(kind, caseLine, implLine string) {
+	if o.cases.n%512 == 0 {
+		watchdogBeat(caseLine)
+	}
 	o.cases.line("%s", caseLine)
 	o.impl.line("%s", implLine)
 	o.kinds[kind]++
@@ -320,6 +325,9 @@ func runC14(o *opts) error {
 	out := &c14Out{cases: newLineWriter(o.out, "cases.txt"), impl: newLineWriter(o.out, "impl.txt"), kinds: map[string]int{}}
 	defer out.cases.close()
 	defer out.impl.close()
+	// safety net: a cursor operation or query that never returns ends the run with HANG.txt (status 7)
+	startWatchdog(o.out, 90*time.Second)
+	watchdogBeat("start")
 
 	if rp := o.get("replaycase", ""); rp != "" {
 		data, err := os.ReadFile(rp)
@@ -351,8 +359,12 @@ func runC14(o *opts) error {
 	if err := c14Queries(dir, out, r, worlds); err != nil {
 		return err
 	}
+	// re-opened cursors (c14_reuse.go); last, because a query that hangs keeps its transaction for ever
+	if err := c14Reuse(dir, out, o.thorough()); err != nil {
+		return err
+	}
 	writeJSON(o.out, "stats.json", map[string]interface{}{
-		"kinds": out.kinds, "cases": out.cases.n, "seek_depth": depth, "seek_depth_handouts": depthThin, "seek_depth_deep": depthDeep,
+		"kinds": out.kinds, "cases": out.cases.n, "abandoned_queries": c14Hangs, "seek_depth": depth, "seek_depth_handouts": depthThin, "seek_depth_deep": depthDeep,
 		"element_universe": []string{"", "a", "ab", "b", "\\xff"}, "id_universe": []string{"\\x01", "a", "ab", "b", "\\xff"},
 		"seek_targets": len(c14Targets), "bolt_big_bucket_keys": bigKeys, "query_worlds": worlds,
 	})
@@ -924,6 +936,8 @@ func c14Replay(dir string, out *c14Out, line string) error {
 		return s
 	}
 	switch next() {
+	case "R", "S":
+		return c14ReplayReuse(sub, out, line)
 	case "B":
 		mode := next()
 		keys := readSet()
